@@ -100,6 +100,7 @@ class Out:
         self.rows = {}      # stmt id -> row (1-based)
         self.spans = {}     # stmt id -> (row, c0, c1)
         self.endrows = {}   # stmt id of a block statement -> row of its closing line
+        self.extrarows = {} # row of an ELSEIF / CASE line -> id of the statement it belongs to
 
     def emit(self, text, sid=None, indent=0):
         line = " " * indent + text
@@ -150,7 +151,8 @@ def stmt(o, s, ind):
     elif k == "if":
         for j, arm in enumerate(s["arms"]):
             kw = "IF " if j == 0 else "ELSEIF "
-            o.emit(kw + expr(arm["c"]) + " THEN", sid if j == 0 else None, ind)
+            row = o.emit(kw + expr(arm["c"]) + " THEN", sid if j == 0 else None, ind)
+            o.extrarows[row] = sid
             body(o, arm["body"], ind + 2)
         if s.get("els") or s.get("hasels"):
             o.emit("ELSE", None, ind)
@@ -159,7 +161,8 @@ def stmt(o, s, ind):
     elif k == "select":
         o.emit("SELECT CASE " + expr(s["e"]), sid, ind)
         for c in s["cases"]:
-            o.emit("CASE " + ", ".join(case_test(t) for t in c["tests"]), None, ind)
+            row = o.emit("CASE " + ", ".join(case_test(t) for t in c["tests"]), None, ind)
+            o.extrarows[row] = sid
             body(o, c["body"], ind + 2)
         if s.get("els") or s.get("hasels"):
             o.emit("CASE ELSE", None, ind)
@@ -278,4 +281,6 @@ def program(prog):
         o.emit(head)
         body(o, sub["body"], 2)
         o.emit("END FUNCTION" if sub["kind"] == "fun" else "END SUB")
-    return "\r\n".join(o.lines) + "\r\n", o.rows, o.spans, o.endrows
+    endrows = dict(o.endrows)
+    endrows["extra"] = o.extrarows
+    return "\r\n".join(o.lines) + "\r\n", o.rows, o.spans, endrows
